@@ -713,6 +713,9 @@ type dtCase struct {
 	V     dtVal  `json:"value"`          // the Go value
 	Wire  string `json:"wire,omitempty"` // hex of the bytes observed / fed
 	Extra string `json:"extra,omitempty"`
+	// Prev: the value of the ROW that precedes this value's ROW under one
+	// format (two-rows leg)
+	Prev *dtVal `json:"previous_row_value,omitempty"`
 }
 
 // ---------------------------------------------------------------- aggregator
@@ -837,6 +840,9 @@ type dtAcc struct {
 	evals    int64
 	distinct int64
 	counts   map[string]int64
+	// prev: per variant the last value that went through the row leg
+	prev map[string]*dtVal
+	nth  int
 }
 
 func newDtAcc(r *rt.Result) *dtAcc { return &dtAcc{r: r, counts: map[string]int64{}} }
